@@ -416,6 +416,15 @@ def check_compare_languages(ctx, rep, f):
                 msgs.append((st, 'extra'))
             elif isinstance(txt, str) and 'should be accepted' in txt:
                 msgs.append((st, 'missing'))
+    # early-return style:  return ['Error: word ... should be accepted'.format(..)]
+    for st in walk_no_nested(f.node):
+        if isinstance(st, ast.Return) and isinstance(st.value, ast.List) and len(st.value.elts) == 1:
+            a = st.value.elts[0]
+            txt = a.func.value.value if isinstance(a, ast.Call) and isinstance(a.func, ast.Attribute) and isinstance(a.func.value, ast.Constant) else const_str(a)
+            if isinstance(txt, str) and 'should not be accepted' in txt:
+                msgs.append((st, 'extra'))
+            elif isinstance(txt, str) and 'should be accepted' in txt:
+                msgs.append((st, 'missing'))
     if len(msgs) != 2 or len(diffs) < 2:
         rep.undecided(RULE + '.K4', f, 'def ' + f.name, 'message / difference structure not recognised')
         return
@@ -423,8 +432,8 @@ def check_compare_languages(ctx, rep, f):
     for (st, kind) in msgs:
         nid = cfg.n_of(st)
         atoms = fx.guard_atoms(nid)
-        nonempty = [a[1] for a in atoms if a[0] == 'empty' and a[3] is False and a[1] in diffs]
-        empty = [a[1] for a in atoms if a[0] == 'empty' and a[3] is True and a[1] in diffs]
+        nonempty = [a[1] for a in atoms if ((a[0] == 'empty' and a[3] is False) or (a[0] == 'truthy' and a[3] is True)) and a[1] in diffs]
+        empty = [a[1] for a in atoms if ((a[0] == 'empty' and a[3] is True) or (a[0] == 'truthy' and a[3] is False)) and a[1] in diffs]
         if not nonempty:
             rep.violates(RULE + '.K4', f, st, 'the message is not guarded by the non-emptiness of a set difference')
             continue
@@ -458,6 +467,16 @@ def check_compare_languages(ctx, rep, f):
                     rep.violates(RULE + '.K5', f, w, 'the reported word is not a shortest element of the difference (index {} of {}{})'.format(
                         u(idx), dv, '' if minimal else ', which is not sorted by ascending length'))
                     blk_ok = True
+        if not blk_ok:
+            # the element is taken inline in the reporting statement:  '...'.format(show(X[0]))
+            inline = [x for x in ast.walk(st) if isinstance(x, ast.Subscript) and u(x.value) == dv and isinstance(x.ctx, ast.Load)]
+            for x in inline[:1]:
+                blk_ok = True
+                if isinstance(x.slice, ast.Constant) and x.slice.value == 0 and minimal:
+                    rep.holds(RULE + '.K5', f, x, 'the reported word is element 0 of {} sorted by ascending length'.format(dv))
+                else:
+                    rep.violates(RULE + '.K5', f, x, 'the reported word is not a shortest element of the difference (index {} of {}{})'.format(
+                        u(x.slice), dv, '' if minimal else ', which is not sorted by ascending length'))
         if not blk_ok:
             if fn == 'min' and minimal:
                 rep.holds(RULE + '.K5', f, dst, 'min(..., key=len) picks a shortest word')
